@@ -1,4 +1,5 @@
 //! Harness for the Linux daemon side (metrics exporter): drives the real exporter process.
+pub mod clockx;
 pub mod fwdq;
 pub mod http;
 pub mod metrics;
